@@ -506,6 +506,116 @@ theorem adapt_noop (conv : Graph → Graph) (c : Ctx) (varNames : List String) (
     adaptInline conv c varNames g first imports target = .ok first := by
   unfold adaptInline; simp [h]
 
+/-! #### the decision of `adapt_inline`: which data it depends on -/
+
+theorem foldl_max_ge_init (vs : List Nat) (v : Nat) : v ≤ vs.foldl max v := by
+  induction vs generalizing v with
+  | nil => exact Nat.le_refl _
+  | cons w ws ih => exact Nat.le_trans (Nat.le_max_left v w) (ih (max v w))
+
+theorem foldl_max_ge_mem (vs : List Nat) (v w : Nat) (hw : w ∈ vs) : w ≤ vs.foldl max v := by
+  induction vs generalizing v with
+  | nil => cases hw
+  | cons u us ih =>
+    rcases List.mem_cons.mp hw with rfl | h
+    · exact Nat.le_trans (Nat.le_max_right v w) (foldl_max_ge_init us (max v w))
+    · exact ih (max v u) h
+
+theorem foldl_max_mem (vs : List Nat) (v : Nat) : vs.foldl max v = v ∨ vs.foldl max v ∈ vs := by
+  induction vs generalizing v with
+  | nil => exact Or.inl rfl
+  | cons u us ih =>
+    rcases ih (max v u) with h | h
+    · rcases Nat.le_total v u with hvu | huv
+      · right; rw [List.foldl_cons, h, Nat.max_eq_right hvu]; exact List.mem_cons_self ..
+      · left; rw [List.foldl_cons, h, Nat.max_eq_left huv]
+    · right; exact List.mem_cons_of_mem _ h
+
+/-- **`source_version_spec`**: the source version `adapt_inline` works with is THE maximum of the
+    default-domain imports of the inlined model - a member that bounds every member; in particular it
+    does not depend on the order of the imports or on where the other domains are listed. -/
+theorem source_version_spec (imports : List (String × Nat)) (v : Nat) :
+    sourceVersion imports = some v ↔
+      v ∈ defaultImports imports ∧ ∀ w ∈ defaultImports imports, w ≤ v := by
+  unfold sourceVersion
+  cases hd : defaultImports imports with
+  | nil => simp
+  | cons u us =>
+    constructor
+    · intro h
+      have hv : us.foldl max u = v := by simpa using h
+      subst hv
+      refine ⟨?_, fun w hw => ?_⟩
+      · rcases foldl_max_mem us u with h | h
+        · rw [h]; exact List.mem_cons_self ..
+        · exact List.mem_cons_of_mem _ h
+      · rcases List.mem_cons.mp hw with rfl | hw
+        · exact foldl_max_ge_init us w
+        · exact foldl_max_ge_mem us u w hw
+    · rintro ⟨hm, hb⟩
+      have h1 : us.foldl max u ≤ v := by
+        rcases foldl_max_mem us u with h | h
+        · rw [h]; exact hb u (List.mem_cons_self ..)
+        · exact hb _ (List.mem_cons_of_mem _ h)
+      have h2 : v ≤ us.foldl max u := by
+        rcases List.mem_cons.mp hm with rfl | hm
+        · exact foldl_max_ge_init us v
+        · exact foldl_max_ge_mem us u v hm
+      simp [Nat.le_antisymm h1 h2]
+
+/-- **`adapt_decision_spec`**: `adapt_inline` converts iff some emitted top-level node lies in the default
+    domain and the inlined model's source version exists and differs from the target - nothing else. -/
+theorem adapt_decision_spec (protoDomains : List String) (imports : List (String × Nat)) (target : Nat) :
+    needsConversionFull protoDomains imports target = true ↔
+      (∃ d ∈ protoDomains, d = "" ∨ d = "ai.onnx") ∧ ∃ v, sourceVersion imports = some v ∧ v ≠ target := by
+  unfold needsConversionFull needsConversion sourceVersion
+  cases defaultImports imports with
+  | nil => simp
+  | cons u us => simp
+
+/-- **`adapt_decision_operator_blind`**: the decision looks at the DOMAINS of the emitted top-level nodes
+    only. Two inlined models whose top-level nodes lie in the same domains - whatever their operators
+    are, changed between the two opsets or not, and whatever their bodies hold - are both converted
+    or both kept (the held-out change "skip the converter when no top-level operator changed" breaks
+    exactly this; the driver's `converts` is compared with the real call of the converter on every
+    correspondence case). -/
+theorem adapt_decision_operator_blind (conv : Graph → Graph) (c : Ctx) (varNames : List String) (g : Graph)
+    (first first' : List Node) (imports : List (String × Nat)) (target : Nat)
+    (hdom : first.map (fun n => n.op.domain) = first'.map (fun n => n.op.domain)) :
+    needsConversionFull (first.map fun n => n.op.domain) imports target
+      = needsConversionFull (first'.map fun n => n.op.domain) imports target ∧
+    (needsConversionFull (first.map fun n => n.op.domain) imports target = true →
+      adaptInline conv c varNames g first (defaultImports imports) target
+        = adaptInline conv c varNames g first' (defaultImports imports) target) := by
+  refine ⟨by rw [hdom], fun h => ?_⟩
+  have h' : needsConversion (first'.map fun n => n.op.domain) (defaultImports imports) target = true := by
+    rw [← hdom]; exact h
+  have h0 : needsConversion (first.map fun n => n.op.domain) (defaultImports imports) target = true := h
+  unfold adaptInline
+  rw [if_pos h0, if_pos h']
+
+/-- **`adapt_decision_ignores_other_domains`**: an import of another domain (ai.onnx.ml, a custom domain,
+    an import no node uses), listed anywhere among the imports and at any version, changes neither the
+    source version nor the decision. -/
+theorem adapt_decision_ignores_other_domains (pre post : List (String × Nat)) (d : String) (ver : Nat)
+    (hd : d ≠ "" ∧ d ≠ "ai.onnx") (protoDomains : List String) (target : Nat) :
+    sourceVersion (pre ++ (d, ver) :: post) = sourceVersion (pre ++ post) ∧
+    needsConversionFull protoDomains (pre ++ (d, ver) :: post) target
+      = needsConversionFull protoDomains (pre ++ post) target := by
+  have h : defaultImports (pre ++ (d, ver) :: post) = defaultImports (pre ++ post) := by
+    simp [defaultImports, List.filter_cons, hd.1, hd.2]
+  unfold sourceVersion needsConversionFull
+  rw [h]
+  exact ⟨rfl, rfl⟩
+
+/-- non-vacuity: opset 17 model whose only top-level node is an `If` (the same at 16..18), next to an
+    opset-18 operator: converted; an ai.onnx.ml import at version 18 listed first does not switch it off;
+    at target 17 it is kept -/
+example : needsConversionFull [""] [("", 17)] 18 = true ∧
+    needsConversionFull [""] [("ai.onnx.ml", 18), ("", 17)] 18 = true ∧
+    needsConversionFull ["", "com.microsoft"] [("com.microsoft", 1), ("", 17)] 17 = false ∧
+    needsConversionFull ["custom.dom"] [("custom.dom", 1), ("", 13)] 18 = false := by decide
+
 /-- `node.model` after `adapt_inline` is the object it was before, whether `to_onnx` raises or not
     (for the statement list extracted from `_adapt.adapt_inline` on this run; C12 relies on it) -/
 theorem adapt_restores_model {α : Type} (base target junk : α) (emitRaises : Bool) :
